@@ -141,10 +141,10 @@ def run(tier):
                 agree += 1
     # ---- the predicted cyclic wait on the real VM
     iters = 3000 if tier == "quick" else 30000
-    cv = vlib.run_pool(["par"], [{"id": 0, "scenario": "collect_vs_push", "iterations": iters}], workers=1, job_timeout=90 if tier == "quick" else 400)
+    cv = vlib.run_pool(["par"], [{"id": 0, "scenario": "collect_vs_push", "iterations": iters}], workers=1, job_timeout=90 if tier == "quick" else 400, retry_hangs=False)
     c = cv.get(0, {})
     if c.get("status") == "hang":
-        again = vlib.run_pool(["par"], [{"id": 0, "scenario": "collect_vs_push", "iterations": iters}], workers=1, job_timeout=90 if tier == "quick" else 400).get(0, {})
+        again = vlib.run_pool(["par"], [{"id": 0, "scenario": "collect_vs_push", "iterations": iters}], workers=1, job_timeout=90 if tier == "quick" else 400, retry_hangs=False).get(0, {})
         if again.get("status") == "hang":
             V.violation("deadlock:collect-vs-push", "an OS thread collecting on the parent and another pushing a parent-rooted value onto a child dead-lock (the cyclic wait Locks.tla predicts: ctx[P] -> ctx[C] vs ctx[C] -> ctx[P])", {"scenario": "collect_vs_push"})
     elif c.get("status") == "crash":
